@@ -138,7 +138,29 @@ func stateFacts(b *strings.Builder, repo string) {
 	sort.Strings(hidden)
 	sort.Strings(writes)
 	sort.Strings(pkgState)
-	writeStrList(b, "configUnexportedFields", hidden)
-	writeStrList(b, "configReceiverWrites", writes)
-	writeStrList(b, "packageState", pkgState)
+	for _, pkg := range []string{"saml", "samlsp"} {
+		var h, w []string
+		for _, s := range hidden {
+			if strings.HasPrefix(s, pkg+".") {
+				h = append(h, s)
+			}
+		}
+		for _, s := range writes {
+			if strings.HasPrefix(s, pkg+".") {
+				w = append(w, s)
+			}
+		}
+		writeStrList(b, "configUnexportedFields_"+pkg, h)
+		writeStrList(b, "configReceiverWrites_"+pkg, w)
+	}
+	// per package, so that each property depends on the state of the packages its code lives in
+	for _, pkg := range []string{"saml", "samlsp", "samlidp", "xmlenc"} {
+		var l []string
+		for _, s := range pkgState {
+			if strings.HasPrefix(s, pkg+".") {
+				l = append(l, s)
+			}
+		}
+		writeStrList(b, "packageState_"+pkg, l)
+	}
 }
